@@ -14,7 +14,7 @@ ReadOK(got, want) == IsPrefixSeq(got, want) /\ (want # <<>> => got # <<>>)
 
 FreshOK(e, s) ==
   ~Quiescent(s) \/
-  IF s.isdir THEN e.fresh.c \notin {"ok", "panic"} /\ e.fresh.k = "dir"       \* a directory at the path stays a directory
+  IF s.isdir THEN e.fresh.c \notin {"ok", "panic"} /\ e.fresh.k = "dir" /\ e.fresh.len = 0      \* a directory at the path stays an (empty-length) directory
   ELSE IF Exists(s) THEN e.fresh.c = "ok" /\ e.fresh.v = s.file /\ e.fresh.len = Len(s.file) /\ e.fresh.k = "file"
   ELSE e.fresh.c = "notfound"
 \* creation time (C19): once set it survives every later write / append / flush / drop until the file is created anew
